@@ -1,6 +1,7 @@
 import CodeLimit.Lemmas.FindAll
 import CodeLimit.Lemmas.FindAllLang
 import CodeLimit.Gen.Languages
+import CodeLimit.Props.C15
 /-!
 # C14 - `find_all` reports greedy, ordered, non-overlapping matches
 
@@ -15,6 +16,15 @@ stated for an arbitrary deterministic machine `A` (instantiated with the DFA of 
 input ends) and a committed match `(s, e)` discards every attempt that started before `e`.
 Hence completeness holds only in the partial form `completeness_partial`; the full clause is
 refuted by `completeness_full_fails` (known finding KF1).
+
+How to read the file.  Sections 1-9 are the INTERNAL form: about `runM A A.init` of an abstract
+machine, with the hypothesis `findAll A xs = .ok ms` (an `.error` result satisfies them vacuously;
+`total` / `error_only_from_step` say when it cannot occur).  The statements in the words of the
+property are: section 10 (`findAllId_*`: compiled patterns over `Identity` atoms, `Lang r` instead
+of machine runs, totality `findAllId_total` included) and section 11 (`gen_find_all_greedy`: the
+shipped header patterns over token predicates, for every token list, totality included).
+Patterns over nested stateful predicates: `Props/C14nest.lean`; the balance clause:
+`Props/C14b.lean`.
 -/
 namespace CL.C14
 
@@ -367,7 +377,8 @@ example :
 The hypothesis "the pattern cannot match the empty sequence" holds for every header pattern
 that a language passes to `get_headers` (checked on the generated pattern table by evaluating
 the compiled table, `langB`), so items 1-6 apply to the machine `get_headers` runs `find_all`
-on (token predicates, including `Balanced`). -/
+on (token predicates, including `Balanced`); totality comes from C15 (the shipped patterns are
+unambiguous), so the statement needs no "if `find_all` returns". -/
 
 /-- no header pattern of any supported language matches the empty token sequence -/
 theorem gen_header_patterns_not_nullable :
@@ -378,16 +389,29 @@ theorem gen_header_patterns_not_nullable :
   rw [(langB_iff _ _).2 hl] at this
   cases this
 
-/-- items 1-5 for the `find_all` call of `get_headers` on a header pattern of a supported
-language: every reported match is non-empty, in range, records exactly the matched tokens, is
-a greedy match of the compiled table over the token predicates, and the matches are ordered and
-disjoint -/
+/-- **items 1-6 for the `find_all` call of `get_headers` on a header pattern of a supported
+language, for EVERY token list**: the call returns (no ambiguity error, no exhausted fuel:
+`C15.findAll_total`), every reported match is non-empty, in range, records exactly the matched
+tokens and is a greedy match of the compiled table over the token predicates (accepted, and the
+table cannot continue at its end: sound + longest), the matches are ordered and disjoint, and
+(item 6, partial as for every machine - KF1) every position with a greedy match is covered by a
+reported match that finishes no later, or was pre-empted by a reported match that starts later
+and finishes strictly earlier.
+
+`GreedyAt (dfaMachine D tokAcceptor)` is the machine-level notion (the table of the compiled
+pattern run with fresh predicate copies); its reading without automata - `Name ( … )+`,
+`[function] Name ( … )+`, `def Name ( … )+` by plain recursion on the tokens - is
+`C01syn.greedy_iff_synHeader` / `greedy_iff_funHeader` / `C01pyfull.greedy_iff_defHeader`; the
+balance clause is `C14b.early_end_nest_zero`. -/
 theorem gen_find_all_greedy {L : String × Language} (hL : L ∈ Gen.all) {hp : HeaderPat}
-    (hhp : hp ∈ L.2.pats) {D : Dfa Pred} (hD : compileTok hp.expr = .ok D) {toks : List Tok}
-    {ms : List (Match Tok)} (h : findAll (dfaMachine D tokAcceptor) toks = .ok ms) :
-    (∀ m ∈ ms, m.s < m.e ∧ m.e ≤ toks.length ∧ m.toks = slice toks m.s m.e ∧
-      GreedyAt (dfaMachine D tokAcceptor) toks m.s m.e) ∧
-    ms.Pairwise (fun m m' => m.e ≤ m'.s) := by
+    (hhp : hp ∈ L.2.pats) {D : Dfa Pred} (hD : compileTok hp.expr = .ok D) (toks : List Tok) :
+    ∃ ms, findAll (dfaMachine D tokAcceptor) toks = .ok ms ∧
+      (∀ m ∈ ms, m.s < m.e ∧ m.e ≤ toks.length ∧ m.toks = slice toks m.s m.e ∧
+        GreedyAt (dfaMachine D tokAcceptor) toks m.s m.e) ∧
+      ms.Pairwise (fun m m' => m.e ≤ m'.s) ∧
+      (∀ p f, GreedyAt (dfaMachine D tokAcceptor) toks p f →
+        (∃ m ∈ ms, m.s ≤ p ∧ p < m.e ∧ m.e ≤ f) ∨ (∃ m ∈ ms, p < m.s ∧ m.e < f)) := by
+  obtain ⟨ms, h⟩ := C15.findAll_total L.2 (List.mem_map.2 ⟨L, hL, rfl⟩) hp hhp toks D hD
   have hD' : nfaToDfa (compile hp.expr 1) id = some D := by
     unfold compileTok at hD
     split at hD
@@ -396,13 +420,57 @@ theorem gen_find_all_greedy {L : String × Language} (hL : L ∈ Gen.all) {hp : 
   have hnn : (dfaMachine D tokAcceptor).acc (dfaMachine D tokAcceptor).init = false :=
     isAcc_start_false isOrder_id hD' (gen_header_patterns_not_nullable L hL hp hhp)
   have hds := dfaMachine_deadStuck (β := Tok) D tokAcceptor
-  refine ⟨fun m hm => ?_, ordered_disjoint hnn hds h⟩
+  refine ⟨ms, h, fun m hm => ?_, ordered_disjoint hnn hds h, completeness_partial_strong hnn hds h⟩
   have hg := greedy hnn hds h m hm
   exact ⟨hg.1, hg.2.1, records hnn hds h m hm, hg⟩
+
+/-- the hypothesis form: whatever list `find_all` returned, it has the properties above -/
+theorem gen_find_all_greedy_of_ok {L : String × Language} (hL : L ∈ Gen.all) {hp : HeaderPat}
+    (hhp : hp ∈ L.2.pats) {D : Dfa Pred} (hD : compileTok hp.expr = .ok D) {toks : List Tok}
+    {ms : List (Match Tok)} (h : findAll (dfaMachine D tokAcceptor) toks = .ok ms) :
+    (∀ m ∈ ms, m.s < m.e ∧ m.e ≤ toks.length ∧ m.toks = slice toks m.s m.e ∧
+      GreedyAt (dfaMachine D tokAcceptor) toks m.s m.e) ∧
+    ms.Pairwise (fun m m' => m.e ≤ m'.s) ∧
+    (∀ p f, GreedyAt (dfaMachine D tokAcceptor) toks p f →
+      (∃ m ∈ ms, m.s ≤ p ∧ p < m.e ∧ m.e ≤ f) ∨ (∃ m ∈ ms, p < m.s ∧ m.e < f)) := by
+  obtain ⟨ms', h', r⟩ := gen_find_all_greedy hL hhp hD toks
+  rw [h] at h'
+  cases h'
+  exact r
 
 /-- non-vacuity: there are languages, each has header patterns, and each of them compiles -/
 example : Gen.all ≠ [] ∧ ∀ L ∈ Gen.all, L.2.pats ≠ [] ∧ ∀ hp ∈ L.2.pats,
     (match compileTok hp.expr with | .ok _ => true | .error _ => false) = true := by
   decide +kernel
+
+/-- the tokens of `f ( ) x g ( )` (all on line 1) -/
+def twoToks : List Tok :=
+  [⟨2, 0, [102], 1, 0⟩, ⟨3, 2, [40], 1, 1⟩, ⟨3, 2, [41], 1, 2⟩, ⟨2, 0, [120], 1, 4⟩,
+   ⟨2, 0, [103], 1, 6⟩, ⟨3, 2, [40], 1, 7⟩, ⟨3, 2, [41], 1, 8⟩]
+
+/-- a shipped pattern (C) with TWO matches on `f ( ) x g ( )`: `f ( )` = (0, 3), committed when the
+attempt is stuck at `x`, and `g ( )` = (4, 7), which reaches the end of the input and is committed
+by the loop after the end of the sequence (the loop defect F2 was about); the attempt from `x` at
+position 3 (`x g`: a name not followed by `(`) dies.  `gen_find_all_greedy` applies: position 4
+is covered, the matches are disjoint. -/
+example : ∃ hp ∈ Gen.c.pats, ∃ D ms, compileTok hp.expr = .ok D ∧
+    findAll (dfaMachine D tokAcceptor) twoToks = .ok ms ∧
+    ms.map (fun m => (m.s, m.e)) = [(0, 3), (4, 7)] ∧ twoToks.length = 7 ∧
+    ms.Pairwise (fun m m' => m.e ≤ m'.s) ∧
+    (∀ m ∈ ms, GreedyAt (dfaMachine D tokAcceptor) twoToks m.s m.e) := by
+  have h : Gen.c.pats.any (fun hp => match compileTok hp.expr with
+      | .ok D => (match findAll (dfaMachine D tokAcceptor) twoToks with
+        | .ok ms => ms.map (fun m => (m.s, m.e)) == [(0, 3), (4, 7)]
+        | .error _ => false)
+      | .error _ => false) = true := by decide +kernel
+  obtain ⟨hp, hhp, hw⟩ := List.any_eq_true.1 h
+  split at hw
+  · rename_i D hD
+    split at hw
+    · rename_i ms hms
+      have hgen := gen_find_all_greedy_of_ok (L := ("C", Gen.c)) (by simp [Gen.all]) hhp hD hms
+      exact ⟨hp, hhp, D, ms, hD, hms, by simpa using hw, rfl, hgen.2.1, fun m hm => (hgen.1 m hm).2.2.2⟩
+    · cases hw
+  · cases hw
 
 end CL.C14
